@@ -24,7 +24,7 @@ KINDS = ["node", "child", "child", "set", "set", "set", "set", "req", "req", "re
 
 CHECK = HistoryCheck(
     "C08", {"wake"}, RULE,
-    dict(versions=("2.0", "2.1", "2.2"), max_ops=35, min_ops=6, frame_kinds=KINDS, wild_vt=True, op_weights=dict(set=24, fw=3, near=3, raw=1)),
+    dict(versions=("2.0", "2.1", "2.2"), max_ops=35, min_ops=6, frame_kinds=KINDS, wild_vt=True, op_weights=dict(set=24, fw=3, near=3, raw=1, save=4)),
     nontrivial, quick=(16, 160), thorough=(16, 2500),
     assumptions=[
         "reference model: hold queue FIFO, desired map keyed by (child, int value type), reported set per child",
